@@ -42,6 +42,19 @@ static int usable(var o, var T) {
   return ok;
 }
 
+/* heap objects reached by a deletion issued from an owner's destructor while the collector sweeps: n unreachable
+   Box -> Probe pairs (optionally each owner also reachable from a garbage Tuple), made in a frame that is gone when the collections run */
+static void __attribute__((noinline)) make_owned(int n, int chain) {
+  for (int i = 0; i < n; i++) {
+    var p = new(Probe, $I(i));
+    var b = new(Box, p);
+    /* (a Box constructed from a Box takes over the same target: that would be two owners of one object) */
+    if (chain) { var t = new(Tuple, b); (void)t; }       /* a second garbage object that reaches the owner */
+  }
+}
+static void __attribute__((noinline)) scrub_stack(void) { volatile char* p = alloca(1 << 15); memset((void*)p, 0, 1 << 15); }
+void GC_Mark(void*); void GC_Sweep(void*);
+
 int main(int argc, char** argv) {
   if (argc < 2) { fprintf(stderr, "usage: h_obj script [out]\n"); return 9; }
   FILE* f = fopen(argv[1], "r"); if (!f) { perror(argv[1]); return 9; }
@@ -51,6 +64,18 @@ int main(int argc, char** argv) {
   while (hc_next(f)) {
     alarm(30);
     if (hc_is(0, "reset")) { if (cur_exec > 0) { ev_begin("end"); ev_end(); } cur_exec++; ev_begin("reset"); ev_end(); continue; }
+    if (hc_is(0, "owned")) {            /* owned <pairs> <chain 0|1> <how: force|churn> */
+      int n = (int)hc_int(1), chain = (int)hc_int(2);
+      int64_t issued0 = led_issued_total, retired0 = led_retired_total;
+      hc_exc = "";
+      HC_TRY(make_owned(n, chain); scrub_stack();
+             if (hc_is(3, "force")) { GC_Mark(current(GC)); GC_Sweep(current(GC)); GC_Mark(current(GC)); GC_Sweep(current(GC)); }
+             else for (int i = 0; i < 4000; i++) { var g = new(Int, $I(i)); (void)g; });
+      ev_begin("owned"); ev_int("pairs", n); ev_int("issued", led_issued_total - issued0); ev_int("retired", led_retired_total - retired0);
+      ev_int("lerr", led_errors); ev_str("lmsg", led_errmsg); ev_str("exc", hc_exc); ev_str("msg", hc_msg); ev_int("line", cur_line); ev_end();
+      led_abandon();
+      continue;
+    }
     if (!hc_is(0, "case")) { fprintf(stderr, "unknown op %s\n", hc_w[0]); return 9; }
     const char* how = hc_w[1]; var T = T_of(hc_w[2]);
     volatile var o = NULL; volatile var wantT = T; const char* wantcls = "heap"; int reg = 0;
@@ -64,9 +89,9 @@ int main(int argc, char** argv) {
       /* values used to fill containers: the element type decides */
       #define MK(T_) ((T_) == Odd ? (var)$(Odd, "elevenchars") : (T_) == Tiny ? (var)$(Tiny, "x") : (T_) == Int ? (var)$I(7) : (T_) == Float ? (var)$F(1.5) : (T_) == String ? (var)$S("abc") : (T_) == Probe ? (var)$(Probe, 0, 0, NULL, 0) : (var)$I(7))
       var ET = (T == Tuple || T == Array) ? Int : T;          /* containers of containers are not needed here */
-      if (!strcmp(how, "new"))        { o = (T == Tuple) ? (var)new(Tuple, $I(1), $I(2)) : (T == Array) ? (var)new(Array, Int, $I(1)) : (T == String) ? (var)new(String, $S("abc")) : (T == Probe) ? (var)new(Probe, $I(5)) : new_with(T, tuple(MK(T))); reg = 1; }
-      else if (!strcmp(how, "new_raw")) { o = (T == Tuple) ? (var)new_raw(Tuple, $I(1), $I(2)) : (T == Array) ? (var)new_raw(Array, Int, $I(1)) : (T == String) ? (var)new_raw(String, $S("abc")) : (T == Probe) ? (var)new_raw(Probe, $I(5)) : new_raw_with(T, tuple(MK(T))); }
-      else if (!strcmp(how, "new_root")) { o = (T == Tuple) ? (var)new_root(Tuple, $I(1), $I(2)) : (T == Array) ? (var)new_root(Array, Int, $I(1)) : (T == String) ? (var)new_root(String, $S("abc")) : (T == Probe) ? (var)new_root(Probe, $I(5)) : new_root_with(T, tuple(MK(T))); reg = 1; }
+      if (!strcmp(how, "new"))        { o = (T == Tuple) ? (var)new(Tuple, $I(1), $I(2), $I(3), $I(4)) : (T == Array) ? (var)new(Array, Int, $I(1)) : (T == String) ? (var)new(String, $S("abc")) : (T == Probe) ? (var)new(Probe, $I(5)) : new_with(T, tuple(MK(T))); reg = 1; }
+      else if (!strcmp(how, "new_raw")) { o = (T == Tuple) ? (var)new_raw(Tuple, $I(1), $I(2), $I(3), $I(4)) : (T == Array) ? (var)new_raw(Array, Int, $I(1)) : (T == String) ? (var)new_raw(String, $S("abc")) : (T == Probe) ? (var)new_raw(Probe, $I(5)) : new_raw_with(T, tuple(MK(T))); }
+      else if (!strcmp(how, "new_root")) { o = (T == Tuple) ? (var)new_root(Tuple, $I(1), $I(2), $I(3), $I(4)) : (T == Array) ? (var)new_root(Array, Int, $I(1)) : (T == String) ? (var)new_root(String, $S("abc")) : (T == Probe) ? (var)new_root(Probe, $I(5)) : new_root_with(T, tuple(MK(T))); reg = 1; }
       else if (!strcmp(how, "alloc"))  { o = alloc(T); reg = 1; if (T == String) ((struct String*)o)->val = calloc(1, 1); if (T == Tuple) { ((struct Tuple*)o)->items = malloc(sizeof(var)); ((struct Tuple*)o)->items[0] = Terminal; } if (T == Probe) probe_issue(o, 5); }
       else if (!strcmp(how, "stack"))  { o = (T == Float) ? sF : (T == String) ? sS : (T == Tuple) ? sT : sI; if (T != Int && T != Float && T != String && T != Tuple) wantT = Int; wantcls = "stack"; }
       else if (!strcmp(how, "copy"))   { var src = (T == String) ? sS : (T == Float) ? sF : sI; o = copy(src); wantT = type_of(src); reg = 1; }
@@ -121,7 +146,7 @@ int main(int argc, char** argv) {
       else if (!strcmp(op, "del_root"))    HC_TRY(del_root(o));
       else if (!strcmp(op, "dealloc"))     HC_TRY(dealloc(o));
       else if (!strcmp(op, "dealloc_raw")) HC_TRY(dealloc_raw(o));
-      else if (!strcmp(op, "resize"))      HC_TRY(resize(o, 1));
+      else if (!strcmp(op, "resize"))      HC_TRY(resize(o, (tt == Tuple && len(o) > 0) ? len(o) - 1 : 1));      /* a Tuple only shrinks, and strictly */
       else if (!strcmp(op, "assign"))      HC_TRY(assign(o, tt == String ? (var)$S("xy") : tt == Tuple ? (var)tuple($I(4)) : (var)$I(1)));
       else if (!strcmp(op, "concat"))      HC_TRY(concat(o, tt == String ? (var)$S("zz") : (var)tuple($I(4))));
       else if (!strcmp(op, "push"))        HC_TRY(push(o, $I(4)));
